@@ -56,6 +56,56 @@ def check_c13(prog, rep, tier, cfg):
     c13c(prog, rep)
     c13d(prog, rep)
     c13e(prog, rep)
+    c13f(prog, rep)
+
+
+# conditional directives whose argument is an expression (Delphi: `{$IF expr}`, `{$ELSEIF expr}`); an expression may contain string
+# literals, nested comments and nested directives, so the closing delimiter is the first one OUTSIDE those
+EXPRESSION_DIRECTIVES = ("If", "Elseif")
+
+
+def c13f(prog, rep):
+    """Sibling agreement inside parse_directive_expr: every directive kind that takes an expression ends where the expression-aware
+    scanner says.  (`$elseif` delimited like a block comment ends at the first `}` of a nested comment or literal; the rest of the
+    directive is then cut into other tokens than after `$if`.)"""
+    R = "C13.f"
+    b = prog.body(LX + "parse_directive_expr")
+    if not rep.check(b is not None, R, "anchor:parse_directive_expr", "parse_directive_expr not found"):
+        return
+    try:
+        t = Table(prog, b, inline=1, opaque=("find_directive_expr_end", "find_block_comment_end", "conditional_directive_type"))
+    except TooComplex as e:
+        rep.fail(R, "parse_directive_expr:table", "parse_directive_expr is no longer a decision table: %s" % e)
+        return
+    info = prog.adts.get("pasfmt_core::lang::ConditionalDirectiveKind")
+    allv = [x["name"] for x in info["variants"]] if info else []
+    if not rep.check(set(EXPRESSION_DIRECTIVES) <= set(allv), R, "anchor:ConditionalDirectiveKind", "ConditionalDirectiveKind no longer has the variants %s" % (EXPRESSION_DIRECTIVES,)):
+        return
+    scanner = {}
+    for cons, res in t.rows:
+        r = render(res)
+        sc = sorted(set(re.findall(r"call:(find_\w+)\(", r)))
+        covered = set(allv)
+        some = False
+        for c in cons:
+            if "@Some.0" in str(c[1]):
+                some = True
+                if c[0] == "is":
+                    covered &= {c[2]}
+                elif c[0] == "in":
+                    covered &= set(c[2])
+                elif c[0] == "not":
+                    covered -= set(c[2])
+        if not some:
+            continue
+        for v in covered:
+            scanner.setdefault(v, set()).update(sc or {"?"})
+    bad = {v: sorted(scanner.get(v, {"<no row>"})) for v in EXPRESSION_DIRECTIVES if scanner.get(v) != {"find_directive_expr_end"}}
+    rep.check(not bad, R, "expression-directives-end-where-their-expression-ends",
+              "a conditional directive that takes an expression is not delimited by the expression-aware scanner: %s (a `}` / `*)` inside a nested comment, directive or string literal of "
+              "the expression then closes the directive; its siblings %s use find_directive_expr_end)" % (bad, [v for v in EXPRESSION_DIRECTIVES if v not in bad]),
+              where="%s:%d" % (b.file, b.line), instance={"scanner_by_kind": {k: sorted(v) for k, v in sorted(scanner.items())}})
+    rep.floor(R, "directive kinds with a delimiting scanner", len(scanner), 2)
 
 
 def c13a(prog, rep):
